@@ -395,6 +395,12 @@ class Program(object):
             todo.extend(self.references(f))
         return order
 
+    def region(self, fi, same_module=True):
+        """fi plus every function reachable from it through the reference graph (restricted to fi's module): the unit a
+        rule examines when it is about `what fi does`, so that extracting a private helper does not hide a construct."""
+        out = [f for f in self.reachable([fi]) if not same_module or f.module is fi.module]
+        return out
+
     def callers_of(self, fi):
         """(caller FunctionInfo or None for module level, Call node) for every call whose func resolves to fi."""
         out = []
